@@ -282,6 +282,16 @@ pub fn node_json(n: &ParserNode, files: &dyn Fn(Uuid) -> i64) -> Value {
             .reads_address_of()
             .map_or(String::new(), |l| l.get().to_string())),
     );
+    // what the dataflow analyses take the node to overwrite / to read (analysis/gen_kill.rs)
+    {
+        use riscv_analysis::analysis::HasGenKillInfo;
+        let mut kill: Vec<i64> = n.kill_reg().into_iter().map(reg).collect();
+        kill.sort_unstable();
+        let mut gen: Vec<i64> = n.gen_reg().into_iter().map(reg).collect();
+        gen.sort_unstable();
+        m.insert("kill".into(), json!(kill));
+        m.insert("gen".into(), json!(gen));
+    }
     m.insert("ret".into(), json!(n.is_return()));
     m.insert("ecall".into(), json!(n.is_ecall()));
     m.insert("ujump".into(), json!(n.is_unconditional_jump()));
